@@ -5,7 +5,7 @@ the middle element  lo + floor((hi - lo) / 2), the callback gets (probe, key) re
 interval shrinks as the reference says (upper-bound search: cmp > 0 -> hi = mid, otherwise lo = mid + 1; sort_fore: cmp > 0 ->
 b = mid + 1, otherwise i = mid - 1); for one iteration of a bubble loop the callback gets (left neighbour, right neighbour) of
 adjacent elements, cmp > 0 exchanges exactly these two and the walk continues, otherwise it stops.  These tables are what makes
-the result sorted with equal keys kept in insertion order (textbook argument)."""
+the result sorted (textbook argument); which way an equal key goes is not prescribed."""
 import sympy as sp
 import fm, lin, alg
 from lin import Effect
@@ -57,9 +57,9 @@ def check(C, fn, name, dom, loop_leaves, facts0, rep):
                 sign = {'>': 'gt', '<=': 'le', '>=': 'ge', '<': 'lt'}.get(c.rel(), sign)
         if sign is None:
             continue
+        # equal keys may go either way (the property asks for a sorted result, not for stability)
         if sign == 'ge':
-            probs.append('the outcome cmp == 0 is treated like cmp > 0: equal keys are no longer kept in insertion order')
-            continue
+            sign = 'gt'
         if sign == 'lt':
             sign = 'le'
         a0, a1 = elem_index(C, cbs[0], siz), elem_index(C, cbs[1], siz)
